@@ -616,6 +616,9 @@ func replaySeq(c *fw.Ctx, k kase) {
 		r.entryPoints(keys)
 	case "entry-peer":
 		r.peerBatch(keys)
+	case "poolstate":
+		r.entryPoints(keys)
+		r.poolStates(keys)
 	case "sweep":
 		r.keySweep(keys, buildHonest(keys, false))
 	}
